@@ -27,7 +27,7 @@ HISTORY_TAGS = {
 PROPS = {
     "C07": {
         "runs": [("C07", "std", "normal"), ("C07", "nostd", "normal")],
-        "rule": "tag 70: every (channel, controller number) pair x boundary/seeded values (thorough: all 16384 values) through new/getters/to_short_messages for RawShortMessage and StructuredShortMessage; tag 71: seeded messages fed as encoded pairs after a seeded random prior history (any implementor kind). distinct = distinct input vectors; non-trivial = the observation contains a value other than None",
+        "rule": "scanner histories include Default-constructed scanners (op 8). tag 70: every (channel, controller number) pair x boundary/seeded values (thorough: all 16384 values) through new/getters/to_short_messages for RawShortMessage and StructuredShortMessage; tag 71: seeded messages fed as encoded pairs after a seeded random prior history (any implementor kind). distinct = distinct input vectors; non-trivial = the observation contains a value other than None",
         "exhaustive": {"thorough": True},
         "assumptions": ["restricted integers are built through the checked public constructors",
                         "feeds use valid short messages (status >= 0x80, 7-bit data bytes)"],
@@ -79,13 +79,13 @@ PROPS.update({
 PROPS.update({
     "C15": {
         "runs": [("C15", "std", "normal")],
-        "rule": "tag 150, for each of the three scanners: every ordered pair of the 16 channels x all depth-2 (thorough 4) sequences over an abstracted two-channel alphabet (incl. polls and time for the polling scanner), and seeded random interleavings on up to 16 channels over the full alphabet; the interleaved run is compared with own-scanner runs of the projected per-channel histories (metamorphic, model-free) and with the model",
+        "rule": "tag 150, for each of the three scanners: every ordered pair of the 16 channels x all depth-2 (thorough 4) sequences over an abstracted two-channel alphabet (incl. polls and time for the polling scanner), and seeded random interleavings on up to 16 channels over the full alphabet; the interleaved run is compared with own-scanner runs of the projected per-channel histories (metamorphic, model-free) and with the model; scanners are created by new() and (kinds 10-12, the whole pair sweep and one in five random histories) by Default::default(); histories of the non-polling scanners also contain 'replace the scanner by a Default one' (op 8), polling histories a negative timeout = Default-constructed",
         "exhaustive": {},
         "assumptions": ["mock clock for the polling scanner"],
     },
     "C16": {
         "runs": [("C16", "std", "normal")],
-        "rule": "tag 161: all 128 controller numbers (predicates + whether each scanner reacts); tag 162: every controller_numbers constant of the regenerated table; tag 160: for each scanner, after seeded random prior histories: every non-Control-Change status byte with seeded data bytes and every non-contributing controller number x {0,127,seeded} (thorough: all 128 values), fed as raw/structured/third-party implementors; observation = nothing reported and scanner == its copy taken before",
+        "rule": "tag 161: all 128 controller numbers (predicates + whether each scanner reacts); tag 162: every controller_numbers constant of the regenerated table; tag 160: for each scanner, after seeded random prior histories: every non-Control-Change status byte with seeded data bytes and every non-contributing controller number x {0,127,seeded} (thorough: all 128 values), fed as raw/structured/third-party implementors; observation = nothing reported and scanner == its copy taken before; plus 12000 (thorough 300000) records 'seeded history, then an open construct on channel c (MSB / selected number / pending first value byte), for the polling scanner a time step around the timeout, then a non-contributing message (non-CC with construct-like data bytes, system message, non-contributing CC) mostly on the same channel'; scanners created by new() and by Default::default()",
         "exhaustive": {"quick": False},
         "assumptions": ["derived PartialEq of the scanners is the notion of equal state"],
     },
@@ -127,7 +127,7 @@ PROPS.update({
 PROPS.update({
     "C04": {
         "runs": [("C04", "std", "normal"), ("C04", "nostd", "normal")],
-        "rule": "two builds of the harness: default features (+serde) and --no-default-features. tag 40: every conversion impl of the regenerated table (harness dispatch generated from it) on every value of 8/16-bit and newtype sources, and on boundaries, 2^k +-1, type min/max and seeded random values of 32/64/128-bit and pointer-sized sources; only in-range/failed/panicked is observed; tag 41: T::new on every value of the representation type, in both configurations; tag 42: all strings over {0,1,2,5,9,+,-,space,a} up to length 4 (thorough 5) plus boundary and leading-zero numerals; tag 43: MIN/MAX/Default",
+        "rule": "two builds of the harness: default features (+serde) and --no-default-features. tag 40: every conversion impl of the regenerated table (harness dispatch generated from it) on every value of 8/16-bit and newtype sources, and on boundaries, 2^k +-1, type min/max and seeded random values of 32/64/128-bit and pointer-sized sources; only in-range/failed/panicked is observed; tag 41: T::new on every value of the representation type, in both configurations; tag 42: all strings over {0,1,2,5,9,+,-,space,a} up to length 4 (thorough 5) plus boundary and leading-zero numerals; tag 43: MIN/MAX/Default; tags 62-64: the test_util scalar helpers on every value of their argument type and the test_util shorthands with in- and out-of-range primitives (checked constructors too). The conversion table is what rustc sees (autoref probes over the 18x18 grid of numeric types), not a list parsed from the source",
         "exhaustive": {},
         "assumptions": ["usize/isize are 64-bit"],
     },
